@@ -145,7 +145,9 @@ Definition scfg_of (listener lp dscp : Z) : scfg :=
   else if listener =? 1 then mkScfg lp endhost_port dscp true
   else mkScfg endhost_port endhost_port 0 false.
 
-Definition srv_step (lp dscp : Z) (socks : list (bytes * Z)) (listener sender : Z) (q : pview) (obs : list (Z * pview)) (nsent : Z)
+(* keyok: the DRKey daemon hands out a key for this request; epochok: of the current epoch
+   (looked at by the strict kind only) *)
+Definition srv_step (strict keyok epochok : bool) (lp dscp : Z) (socks : list (bytes * Z)) (listener sender : Z) (q : pview) (obs : list (Z * pview)) (nsent : Z)
   : bool * bool :=
   let c := scfg_of listener lp dscp in
   let qr := pv_rx q in
@@ -153,7 +155,7 @@ Definition srv_step (lp dscp : Z) (socks : list (bytes * Z)) (listener sender : 
   let macf := fun (_ : bytes) mi => mac_lookup tbl mi in
   let revf := fun (p : Z * bytes) =>
                 if (fst p =? h_path_type (rx_hdr qr)) && bytes_eqb (snd p) (h_path (rx_hdr qr)) then pv_rev q else None in
-  let keyf := fun (_ : keyreq) => Some zero_key in
+  let keyf := fun (_ : keyreq) => if keyok then Some zero_key else None in
   let first := match obs with (_, p) :: _ => Some (pv_rx p) | [] => None end in
   let ntpf := fun (_ : bytes) => match first with Some r => match rx_l4 r with Udp _ _ _ p => p | _ => [] end | None => [] end in
   (* whether the kernel delivered a receive timestamp (then the forwarded packet
@@ -174,30 +176,38 @@ Definition srv_step (lp dscp : Z) (socks : list (bytes * Z)) (listener sender : 
     (agree_of (server_step macf revf keyf ntpf c qr oob) || agree_of (server_step macf revf keyf ntpf c qr [])) in
   (* nsent = -1: the answer to the sentinel (a plain request whose SCION source is a harness
      socket) arrived at that socket instead of at the previous hop *)
+  let sobs_ := map (fun o => mkSobs (fst o) (pv_rx (snd o)) (pv_mac (snd o))) obs in
   let oracle := negb (nsent =? -1) &&
-                C13_srv_ok (s_local_port c) (s_conn_port c) (s_fetcher c) socks sender qr (pv_mac q) (pv_rev q)
-                  (map (fun o => mkSobs (fst o) (pv_rx (snd o)) (pv_mac (snd o))) obs) in
+                (if keyok || negb (s_fetcher c)
+                 then C13_srv_ok (s_local_port c) (s_conn_port c) (s_fetcher c) socks sender qr (pv_mac q) (pv_rev q) sobs_
+                 else C13_srv_nokey_ok (s_local_port c) (s_conn_port c) socks sender qr (pv_rev q) sobs_) &&
+                (if strict && s_fetcher c then C13_srv_strict_ok (s_local_port c) epochok qr sobs_ else true) in
   (agree, oracle).
 
-Fixpoint srv_steps (lp dscp : Z) (socks : list (bytes * Z)) (ins outs : list value) : option (bool * bool) :=
+Fixpoint srv_steps (strict : bool) (lp dscp : Z) (socks : list (bytes * Z)) (ins outs : list value) : option (bool * bool) :=
   match ins, outs with
   | [], [] => Some (true, true)
-  | VL [VZ listener; VZ sender; VB _] :: ins', VL [qv; VL obsv; VZ nsent] :: outs' =>
-      match parse_view qv, parse_obs obsv, srv_steps lp dscp socks ins' outs' with
-      | Some q, Some obs, Some (a, o) =>
-          let '(a1, o1) := srv_step lp dscp socks listener sender q obs nsent in
+  | VL [VZ listener; VZ sender; VB _] :: ins', VL (qv :: VL obsv :: VZ nsent :: flags) :: outs' =>
+      match parse_view qv, parse_obs obsv, srv_steps strict lp dscp socks ins' outs',
+            match flags with
+            | [] => Some (true, true)
+            | [VZ k; VZ e] => Some (negb (k =? 0), negb (e =? 0))
+            | _ => None
+            end with
+      | Some q, Some obs, Some (a, o), Some (keyok, epochok) =>
+          let '(a1, o1) := srv_step strict keyok epochok lp dscp socks listener sender q obs nsent in
           Some (a1 && a, o1 && o)
-      | _, _, _ => None
+      | _, _, _, _ => None
       end
   | _, _ => None
   end.
 
-Definition srv_case (a o : list value) : verdict :=
+Definition srv_case (strict : bool) (a o : list value) : verdict :=
   match a, o with
   | [VL ins], [VZ 0; VL [VZ lp; VZ dscp; VZ _; VL socksv]; VL outs] =>
       match parse_socks socksv with
       | Some socks =>
-          match srv_steps lp dscp socks ins outs with
+          match srv_steps strict lp dscp socks ins outs with
           | Some (ag, orc) => relational ag orc
           | None => relational false true
           end
@@ -266,9 +276,40 @@ Definition cli_case (a o : list value) : verdict :=
   | _, _ => relational false true
   end.
 
+(* keyed client: args = scenario :: auth-enabled :: ..; outs cfg = [lia lh ria rh keyok epochok].
+   The client holds a key iff it is configured to authenticate and the daemon hands one out. *)
+Fixpoint cli_strict_exchanges (wanted keyok epochok : bool) (l : list value) : option bool :=
+  match l with
+  | [] => Some true
+  | VL [_; VL respsv; VL res] :: r =>
+      match parse_resps respsv, cli_strict_exchanges wanted keyok epochok r with
+      | Some resps, Some o =>
+          let accepted := match res with [VZ 0; VZ j; VZ _] => Some (Z.to_nat j) | _ => None end in
+          Some (C13_cli_strict_ok wanted keyok epochok (map (fun r => (pv_rx (fst r), pv_mac (fst r))) resps) accepted && o)
+      | _, _ => None
+      end
+  | _ => None
+  end.
+
+Definition cli_keyed_case (strict : bool) (a o : list value) : verdict :=
+  match a, o with
+  | VZ _ :: VZ auth :: _, [VZ 0; VL [VZ lia; VB lh; VZ ria; VB rh; VZ keyok; VZ epochok]; VL exs] =>
+      let wanted := negb (auth =? 0) in
+      match cli_exchanges (wanted && negb (keyok =? 0)) lia lh ria rh exs,
+            (if strict then cli_strict_exchanges wanted (negb (keyok =? 0)) (negb (epochok =? 0)) exs else Some true) with
+      | Some (ag, orc), Some so => relational ag (orc && so)
+      | _, _ => relational false true
+      end
+  | _, VZ 1 :: _ => relational false false
+  | _, _ => relational false true
+  end.
+
 Open Scope string_scope.
 Definition glue_C13 (k : string) (a o : list value) : option verdict :=
-  if is k "srv" || is k "srv.probe" || is k "srv.keyed" then Some (srv_case a o)
+  if is k "srv" || is k "srv.probe" || is k "srv.keyed" then Some (srv_case false a o)
+  else if is k "srv.strict" then Some (srv_case true a o)
+  else if is k "cli.keyed" then Some (cli_keyed_case false a o)
+  else if is k "cli.strict" then Some (cli_keyed_case true a o)
   else if is k "cli" || is k "cli.probe" then Some (cli_case a o)
   else None.
 
